@@ -930,6 +930,21 @@ class InlinedExpressionGenMapper(
                     or isinstance(res, (bool, np.bool_)))
             return res
 
+    def map_comparison(self, expr: prim.Comparison,
+                       prstnt_ctx: PersistentExpressionContext,
+                       local_ctx: LocalExpressionContext
+                       ) -> Expression:
+        # loopy infers the type of a comparison from 'left - right', which is
+        # not defined for a Boolean constant (e.g. an inlined full(shape, True)).
+        # In a comparison, a Boolean is its integer value.
+        def rec_operand(operand: Expression) -> Expression:
+            res = self.rec(operand, prstnt_ctx, local_ctx)
+            return int(res) if isinstance(res, (bool, np.bool_)) else res
+
+        return prim.Comparison(rec_operand(expr.left),
+                               expr.operator,
+                               rec_operand(expr.right))
+
     def map_call(self, expr: prim.Call,
                  prstnt_ctx: PersistentExpressionContext,
                  local_ctx: LocalExpressionContext
